@@ -19,6 +19,9 @@ Cases == {[fn |-> f, cls |-> c, n |-> N(TRUE)] : f \in {"SetBytes", "SetBytesUnc
          \cup {[fn |-> f, cls |-> c, n |-> N(FALSE)] : f \in {"SetBytes", "SetBytesUncompressed", "ReadPoint"}, c \in Edge}
          \cup {[fn |-> f, cls |-> c, n |-> N(FALSE)] : f \in {"SetBytes", "SetBytesUncompressed", "ReadPoint"}, c \in YSide}
          \cup {[fn |-> "SetBytesUncompressed", cls |-> c, n |-> N(TRUE)] : c \in UncOnly}
+         \* complete limb patterns: x around p (81), canonical y around (p-1)/2 (27)
+         \cup {[fn |-> f, cls |-> "plimbs", n |-> 81] : f \in {"SetBytes", "SetBytesUncompressed", "ReadPoint"}}
+         \cup {[fn |-> f, cls |-> "ypat", n |-> 27] : f \in {"SetBytes", "SetBytesUncompressed", "ReadPoint"}}
 
 VARIABLE done
 Init == done = FALSE
